@@ -160,8 +160,11 @@ def install_stubs(I, repo, trace, n_records, record_size):
                 ln = _bytes_len(a2[0]) if a2 else None
                 if ln is None:
                     raise ShapeError("records are parsed from something that is not a byte block")
-                if ln < n * record_size:
-                    raise _Raise(f"StreamError: {n} records need {n * record_size} bytes, got {ln}")
+                # construct's contract for a struct that ends in Seek(record end): every record reads its fixed prefix (a short read
+                # is a StreamError) and seeks over its pixel data without reading it - a block cut inside the pixel data of its last
+                # record parses
+                if n and ln < (n - 1) * record_size + PREFIX:
+                    raise _Raise(f"StreamError: stream read less than specified amount: {n} records need {(n - 1) * record_size + PREFIX} bytes for their prefixes, got {ln}")
                 recs = []
                 for i in range(n):
                     recs.append(Obj("Container", OrderedDict(record_start=Const(i * record_size), preamble=Obj("Container", OrderedDict(record_type=Const(code), record_length=Const(record_size))),
